@@ -80,6 +80,19 @@ def generate(rng, tier):
         emit(f, types, len(blocks) > 0, len(blocks))
         for _ in range(6):
             emit(f[:rng.randint(0, len(f))], types[:2], True)
+    # checksummed files whose length is an exact multiple of the 256-byte read chunk (the read after the last full chunk
+    # returns no data: that is the end of the file, not an error), their neighbours, and the same lengths after truncation
+    for total in (255, 256, 257, 512, 768):
+        body = total - 10 - 3 - 3
+        f = make_file([(3, rand_bytes(rng, body)), (1, b"")], 2, True)
+        assert len(f) == total, (len(f), total)
+        emit(f, [1, 3, 9], True, 2)
+        g = bytearray(f)
+        g[20] ^= 1
+        emit(bytes(g), [1, 3], True)
+    f = make_file([(3, rand_bytes(rng, 700)), (2, rand_bytes(rng, 90))], 2, True)
+    for cut in (256, 512, 768):
+        emit(f[:cut], [2, 3], True)
     # offsets beyond 64 KiB and 128 KiB (block lengths are 16 bits, file offsets are not)
     for ver, cks in ((1, False), (2, True)):
         blocks = [(1, rand_bytes(rng, 40000)), (2, rand_bytes(rng, 40000)), (7, b"x"), (1, rand_bytes(rng, 100)), (3, rand_bytes(rng, 65535)), (9, rand_bytes(rng, 5))]
